@@ -24,18 +24,37 @@ fn run(ctx: &RunCtx) -> Report {
     let rawnet = RawNet::new();
     // 1 run in 6: a long stream (more than 20 replicas, all in the bootstrap list, so all are asked)
     let long_stream = rng.chance(1, 6);
-    let n = if long_stream { rng.usize(21, 40) } else { rng.usize(1, 8) };
+    // every 3rd run is *enumerated*: (number of items 2..6) x (seq pattern) x (arrival permutation) x
+    // (API flavour) decoded from the run index, so a batch walks all arrival orders of up to 6 items
+    let enumerated = if ctx.index % 3 == 1 { Some(decode_enumerated(ctx.index / 3)) } else { None };
+    let long_stream = long_stream && enumerated.is_none();
+    let n = match &enumerated {
+        Some(e) => e.n,
+        None if long_stream => rng.usize(21, 40),
+        None => rng.usize(1, 8),
+    };
     let key = krpc::signing_key(rng.bytes(32).try_into().unwrap());
     let pk = key.verifying_key().to_bytes();
     let salt: Option<Vec<u8>> = if rng.chance(1, 2) { Some(b"s".to_vec()) } else { None };
     let target = krpc::mutable_target(&pk, salt.as_deref());
     // seq patterns with gaps, duplicates and equal-seq-different-value ties
     let pattern = rng.below(5);
-    let values: [&[u8]; 4] = [b"aaa", b"zzz", b"mmm", b"b"];
+    let values: [&[u8]; 6] = [b"aaa", b"zzz", b"mmm", b"b", b"zz", b"zzzz"];
     let mut items: Vec<Option<Item>> = vec![];
     for i in 0..n {
         if !ctx.enabled(i) {
             items.push(None);
+            continue;
+        }
+        if let Some(e) = &enumerated {
+            let (seq, v): (i64, &[u8]) = match e.pattern {
+                0 => (i as i64 + 1, values[i % 4]),                   // all distinct
+                1 => ((i / 2) as i64 + 1, values[i % 4]),             // pairs of equal seq, different values
+                2 => (7, values[i]),                                  // all equal seq: pure tie-break
+                3 => (if i == 0 { 1000 } else { 1 }, values[i % 2]),  // one maximum among equal low seqs
+                _ => ((i.min(n - 2)) as i64 + 1, values[i.min(n - 2) % 4]), // the maximum delivered twice (identical copies)
+            };
+            items.push(Some(Item::signed(&key, salt.as_deref(), seq, v)));
             continue;
         }
         let seq = match pattern {
@@ -59,6 +78,10 @@ fn run(ctx: &RunCtx) -> Report {
         let mut p = Peer::new(rng.id(), addr);
         p.k = 20;
         p.delay = rng.range(0, 150) * MS;
+        if let Some(e) = &enumerated {
+            // arrival rank decided by the permutation: 25 ms apart, link jitter is below 5 ms
+            p.delay = (1 + e.perm[i] as u64) * 25 * MS;
+        }
         if let Some(it) = it {
             p.mutable.insert(target, it.clone());
         }
@@ -74,13 +97,17 @@ fn run(ctx: &RunCtx) -> Report {
     sim.run_for(2 * SEC);
 
     let use_sync = if long_stream { rng.chance(1, 2) } else { rng.chance(1, 4) };
+    let use_sync = enumerated.as_ref().map(|e| e.sync).unwrap_or(use_sync);
+    if enumerated.is_some() {
+        report.probe("enumerated_permutation_runs", 1);
+    }
     if long_stream {
         report.probe("long_stream_runs", 1);
     }
     let mut result: Option<Option<(i64, Vec<u8>)>> = None;
     // 1 run in 5: the reader itself has a put_mutable for this key in flight; the call then joins
     // that put's lookup and must also see what the lookup has already received
-    let with_put = !use_sync && rng.chance(1, 4);
+    let with_put = !use_sync && rng.chance(1, 4) && enumerated.is_none();
     let t_put = sim.now();
     let mut put_item: Option<(i64, Vec<u8>)> = None;
     if with_put {
@@ -223,6 +250,16 @@ fn run(ctx: &RunCtx) -> Report {
     if let Some(d) = sim.died(reader) {
         report.violate("node-died", "reader-actor-panicked", format!("reader died: {d}"));
     }
+    if let Some(e) = &enumerated {
+        // the planned permutation is the arrival order the trace shows (reach of the enumeration)
+        let mut planned: Vec<(usize, (i64, Vec<u8>))> = items.iter().enumerate().filter_map(|(i, it)| it.as_ref().map(|it| (e.perm[i], (it.seq, it.v.clone())))).collect();
+        planned.sort_by_key(|p| p.0);
+        if planned.into_iter().map(|p| p.1).collect::<Vec<_>>() == delivered {
+            report.probe("enumerated_order_as_planned", 1);
+        } else {
+            report.probe("enumerated_order_differs", 1);
+        }
+    }
     let first_is_max = delivered.first() == expected.as_ref();
     report.nontrivial = delivered.len() >= 2 && !first_is_max;
     report.probe("items_delivered", delivered.len() as u64);
@@ -235,7 +272,8 @@ fn run(ctx: &RunCtx) -> Report {
     }
     report.fingerprint = fp;
     let plan = format!(
-        "replicas={n} pattern={pattern} sync={use_sync} items(seq,value,delay_ms)={:?}\narrival order (seq,value)={:?} result={:?}",
+        "replicas={n} pattern={pattern} enumerated={:?} sync={use_sync} items(seq,value,delay_ms)={:?}\narrival order (seq,value)={:?} result={:?}",
+        enumerated.as_ref().map(|e| (e.pattern, e.perm.clone())),
         items.iter().enumerate().map(|(i, it)| it.as_ref().map(|it| (it.seq, String::from_utf8_lossy(&it.v).to_string(), rawnet.with_peer(i, |p| p.delay / MS)))).collect::<Vec<_>>(),
         delivered.iter().map(|d| (d.0, String::from_utf8_lossy(&d.1).to_string())).collect::<Vec<_>>(),
         result.as_ref().map(|r| r.as_ref().map(|g| (g.0, String::from_utf8_lossy(&g.1).to_string())))
@@ -243,6 +281,39 @@ fn run(ctx: &RunCtx) -> Report {
     report.sample = Some(json!({"arrival_order": delivered.iter().map(|d| json!([d.0, String::from_utf8_lossy(&d.1)])).collect::<Vec<_>>(), "sync": use_sync}));
     report.plan_dump = Some(plan);
     finish(&sim, report)
+}
+
+struct Enumerated {
+    n: usize,
+    pattern: u64,
+    perm: Vec<usize>,
+    sync: bool,
+}
+
+/// g -> (flavour, n in 2..=6, pattern in 0..5, permutation of n) in that nesting order, wrapping around
+fn decode_enumerated(g: u64) -> Enumerated {
+    let sync = g % 2 == 1;
+    let mut c = g / 2;
+    let fact = |n: u64| (1..=n).product::<u64>();
+    let total: u64 = (2..=6).map(|n| fact(n) * 5).sum();
+    c %= total;
+    let mut n = 2u64;
+    while c >= fact(n) * 5 {
+        c -= fact(n) * 5;
+        n += 1;
+    }
+    let pattern = c % 5;
+    let mut code = c / 5;
+    // Lehmer code -> permutation
+    let mut pool: Vec<usize> = (0..n as usize).collect();
+    let mut perm = vec![];
+    for k in (1..=n).rev() {
+        let f = fact(k - 1);
+        let idx = (code / f) as usize;
+        code %= f;
+        perm.push(pool.remove(idx));
+    }
+    Enumerated { n: n as usize, pattern, perm, sync }
 }
 
 pub fn property() -> Property {
@@ -259,7 +330,7 @@ pub fn property() -> Property {
         },
         info: || PropInfo {
             floors: vec![],
-            rule: "one run = 1..8 scripted replicas holding authentic items of one key (seq patterns: ascending, gaps, duplicates, all-equal ties, random), per-replica response delays seeded so arrival orders vary; a real reader calls get_mutable_most_recent (async; sync Dht API through a helper thread in 1/4 of the runs). Expected = max (seq, value) over the items the trace shows delivered in time. Non-trivial = at least two items delivered and the maximum did not arrive first; distinct = hash of the arrival sequence (seq, value) x API flavour".into(),
+            rule: "one run = 1..8 scripted replicas holding authentic items of one key (seq patterns: ascending, gaps, duplicates, all-equal ties, random), per-replica response delays seeded so arrival orders vary; every third run is enumerated instead: (2..6 items) x (5 seq patterns: distinct, equal-seq pairs, all-equal ties, single maximum, duplicated maximum) x (every arrival permutation) x (async / sync API) decoded from the run index (1 752 x 5 x 2 combinations: all of them in the thorough tier, all permutations of up to 5 items in the quick tier); a real reader calls get_mutable_most_recent (async; sync Dht API through a helper thread in 1/4 of the runs). Expected = max (seq, value) over the items the trace shows delivered in time. Non-trivial = at least two items delivered and the maximum did not arrive first; distinct = hash of the arrival sequence (seq, value) x API flavour".into(),
             assumptions: vec!["loss-free network, RTT < 500 ms so every reply is in time".into()],
         },
     }
